@@ -232,7 +232,7 @@ func runConcurrent(t *verifsim.Tape, cfg engine.Config) *engine.Outcome {
 				o.Violate("handler_panic", sig, "%s: %v\n%s", where, x.ex.HandlerPanic, genFrames(x.ex.PanicStack))
 				continue
 			}
-			if c := classifyFailureAny(d, x.m, x.payload, x.result, x.ex); c != "" {
+			if c := classifyFailureAny(d, x.m, x.payload, x.result, x.ex, x.cerr); c != "" {
 				o.Features["known_defect_class_in_the_way"]++
 				continue
 			}
